@@ -230,6 +230,22 @@ def run_history(spec):
     the properties' own observables are evaluated at every operation boundary of every segment."""
     t0 = _time.time()
     mk = dict(spec['make'])
+    tick = mk.pop('tick_clock', False)
+    if tick:
+        # deterministic clock: every look at the clock advances it by one tick, so run(timeout=T) ends after T ticks wherever in
+        # the loop body the implementation reads the clock
+        import nautilus.sampler as ns_mod
+        real_time = ns_mod.time
+        state_t = [0]
+
+        def fake():
+            state_t[0] += 1
+            return float(state_t[0])
+        ns_mod.time = fake
+        try:
+            return run_history({'make': mk, 'script': spec['script']}) | {'spec': spec}
+        finally:
+            ns_mod.time = real_time
     prior_kind = mk.pop('prior_kind', None)
     use_file = mk.pop('file', False) or any(st[0] == 'resume' for st in spec['script'])
     tmp = common.scratch_dir('nvcore') if use_file else None
@@ -528,6 +544,9 @@ def histories(tier, seed):
         H.append({'make': {'grid': g, 'kind': 'grid', 'seed': seed + j},
                   'script': [('run', dict(n_eff=60, n_like_max=1500, f_live=[0.95, 0.6, 0.3][j % 3], discard_exploration=bool(j % 2))), ('toggle2',),
                              ('discard', True), ('run', dict(n_eff=80, n_shell=12, n_like_max=2500, f_live=0.5)), ('toggle2',)]})
+    # run() cut into pieces by `timeout` under a deterministic clock (2 ticks = one loop iteration)
+    add([('run', dict(n_eff=200, timeout=T)) for T in [2, 3, 2, 5, 2, 2, 4] * 8] + [('run', dict(n_eff=200))], n_live=100, n_batch=40,
+        tick_clock=True)
     # resumes from the checkpoint file in exploration (with >= 11 bounds) and in the sampling phase
     add([('run', dict(n_eff=300, n_like_max=900)), ('resume',), ('run', dict(n_eff=300, n_like_max=1700)), ('resume',),
          ('run', dict(n_eff=300)), ('resume',), ('toggle2',), ('run', dict(n_eff=450)), ('resume',), ('run', dict(n_eff=500))],
